@@ -143,9 +143,7 @@ void harness (void)
         if (f1_dev)
           {
             VF_ASSERT (same_queue (&qconv), "queue equals the daemon's documented-by-code convention (RE waiter goes second)");
-#ifndef VF_SKIP_F3   /* when reused under C13 the waiting-order finding is not the subject; it is reported under C04 */
             VF_FINDING (same_queue (&q), "F3-replace-existing-waiter-jumps-queue");
-#endif
           }
         else
           VF_ASSERT (same_queue (&q), "resulting queue (order, flags) equals the specification's");
